@@ -42,6 +42,7 @@
 #include <xercesc/validators/common/GrammarResolver.hpp>
 #include <xercesc/util/OutOfMemoryException.hpp>
 #include <xercesc/util/XMLResourceIdentifier.hpp>
+#include <xercesc/util/VerifHooks.hpp>
 
 namespace XERCES_CPP_NAMESPACE {
 
@@ -691,6 +692,7 @@ void XMLScanner::commonInit()
 
         // And assign ourselves the next available scanner id
         fScannerId = ++gScannerId;
+        VERIF_EVS("Acc", "ci_incr", "obj,c,rw,val", 0, 0, 1, fScannerId);
     }
 
     //  Create the attribute list, which is used to store attribute values
